@@ -295,7 +295,13 @@ def run(cr: CheckRun) -> None:
     cr.cov["rule"] = "one trace = (implementation, memory configuration, seed): probed alias matrix over %d byte cells + seeded load/store sequence + final read-back of every cell" % len(cells)
     cr.cov["configurations"] = list(CONFIGS)
     cr.add_sample({"palette": [hex(a) for a in PALETTE[:8]], "config": "rom+card8k"})
-    cr.cov["trusted_base"] = ["vh harness (mem.rs)", "Python driver in checks/c11.py", "TLC"]
+    # growth beyond the bus objects: how the device loaders place ROM / system images of any length and what they protect
+    # (RomLoad.tla), and the memory-mapped internal registers as a state machine (ImemRegs.tla); only the C11 sentences
+    # (ROM immutable, aliases canonical, plain internal RAM reads what was written) are verdicts there, the rest is drift
+    from checks import ext_devices
+    ext_devices.campaign(cr, cr.tier == "quick")
+    cr.mark("devices (RomLoad, ImemRegs)")
+    cr.cov["trusted_base"] = ["vh harness (mem.rs, romload.rs, imemregs.rs)", "Python drivers in checks/c11.py and checks/ext_devices.py", "TLC"]
     cr.assumptions += [
         "the alias structure is probed from the implementation and only its legality is judged (equivalence, internal/external disjoint); the documented structure itself (24-bit wrap, mirror window) is not imposed",
         "device windows (keyboard F0-F2, LCD 0x2000/0xA000) are excluded from the palette except for 0x2000x cells under explicit RAM/ROM overlays; they are covered by C14/C15",
@@ -307,6 +313,9 @@ def replay(path: str) -> int:
     vlib.setup_repo_imports()
     vlib.build_vh()
     rec = json.loads(Path(path).read_text())["replay"]
+    if str(json.loads(Path(path).read_text()).get("key", "")).startswith(("RomLoad:", "ImemRegs:")):
+        from checks import ext_devices
+        return int(ext_devices.replay(rec))
     ev, _ = drive_shard(0, [(rec["cfg"], rec["seed"], rec["length"])], None)
     bad = vlib.tlc_judge_trace("C11", SD, "TraceMemory", "TraceMemory.cfg", ev, "replay")
     for b in bad:
